@@ -85,6 +85,9 @@ def spec_sets(w, p, estimands):
 def _units(prop_est, name):
     @unit("C09", f"get_units.{name}", fns=[f"{CDH}.get_units", f"{CDH}._get_non_modeled_units", f"{CDH}._get_unexpected_units", f"{CDH}._get_units_with_baseline_of_zero", f"{CDH}._get_expected_geographic_unit_fips"])
     def get_units(h, prop_est=prop_est):
+        # scenario for the paths that leave the subset: units that meet several reasons at once / sit on a limit, behind a unit below
+        # the threshold (positions in the reporting frame shifted against the joined table)
+        h.default_replay = lambda ev: {"target": "verif_replays:get_units_scenario_replay", "args": [], "check": "result['exc'] is None and result['ok']"}
         w, p, kind, res = run_get_units(h, prop_est, ["postal_code", "unit"])
         if kind == "raise":
             return h.fail("no_raise", f"raised {res}")
